@@ -4,11 +4,6 @@ Expected statement skeletons of the image code the C20 model transcribes by hand
 -/
 namespace VaxisModel.Lemmas.ImageFlowExpected
 
-def cellPixelSizeBody : List String := ["w, h := 1, 1",
-  "if vx.winSize.Cols > 0 && vx.winSize.XPixel/vx.winSize.Cols > 0 { w = vx.winSize.XPixel / vx.winSize.Cols }",
-  "if vx.winSize.Rows > 0 && vx.winSize.YPixel/vx.winSize.Rows > 0 { h = vx.winSize.YPixel / vx.winSize.Rows }",
-  "return w, h"]
-
 def kittyResizeCell : List String := ["cellPixW, cellPixH := k.vx.cellPixelSize()",
   "img := resizeImage(k.img, w, h, cellPixW, cellPixH)",
   "k.w = max.X / cellPixW",
